@@ -1747,6 +1747,9 @@ fn run_history(rng: &mut Rng, r: &mut Report, cli: &Cli, prop: Prop, shard: usiz
         if arm {
             h.world.store.arm_faults(fault_skip, fault_len);
         }
+        // (what the previous request prepared must not be taken for this one's when the harness cannot even
+        // build the request)
+        h.world.last_mutations.lock().unwrap().clear();
         let mut out = h.exec(rng, &op);
         let fired = if arm { h.world.store.disarm_faults() } else { 0 };
         r.eval(1);
